@@ -221,7 +221,7 @@ class Parser:
                 subtoken_is_valid_flag = (
                     machine.context is not None
                     and token in machine.context.flags
-                )
+                ) or machine.is_core_flag_in_task_context(token)
                 if not (optional and subtoken_is_valid_flag):
                     token = orig
                     mutations = []
@@ -301,6 +301,13 @@ class ParseMachine(StateMachine):
         # Argument that can be queried, e.g. "arg.is_iterable"?)
         return not has_value
 
+    def is_core_flag_in_task_context(self, token: str) -> bool:
+        return bool(
+            self.initial
+            and self.context is not self.initial
+            and token in self.initial.flags
+        )
+
     def handle(self, token: str) -> None:
         debug("Handling token: {!r}".format(token))
         # Handle unknown state at the top: we don't care about even
@@ -316,8 +323,12 @@ class ParseMachine(StateMachine):
         elif self.context and token in self.context.inverse_flags:
             debug("Saw inverse flag {!r}".format(token))
             self.switch_to_flag(token, inverse=True)
-        # Value for current flag
-        elif self.waiting_for_flag_value:
+        # Value for current flag (unless that value is optional and the token
+        # is a core flag, which then is a flag here exactly as it would be
+        # before the first task: see the core-flag branch below.)
+        elif self.waiting_for_flag_value and not (
+            self.flag.optional and self.is_core_flag_in_task_context(token)
+        ):
             debug(
                 "We're waiting for a flag value so {!r} must be it?".format(
                     token
